@@ -354,6 +354,15 @@ def main():
             import re as _re
             _rx = _re.compile(args['fault_re'])
             FAULT['match'] = lambda sql: bool(_rx.search(sql))
+        if args.get('rehearse_on'):
+            # the same action is first carried out, in this very process,
+            # on another database holding a copy of the observed one: state
+            # kept in the process between two runs must not change the
+            # second one.  Only the observed run is recorded.
+            run_action(action, dict(args, database=args['rehearse_on'],
+                                    rehearse_on=None))
+            del EVENTS[:]
+            emit('mark', what='rehearsal_done')
         res = run_action(action, args)
         if not args.get('no_facts'):
             try:
